@@ -21,6 +21,7 @@ RULE = ('the instruction table of C04 (integer core) plus MMX/SSE register and m
 RULE += ' Round 6: the 16-bit-addressed and address-size-prefixed instances of C04; x87: 159 forms (register-register both directions, popping, memory and integer operands, pushes, constants, compares, fcomi, fcmovcc, stack rotation) executed with the x87 stack loaded with finite values (perturbing ST(i) one at a time; written = the CPU changed a register that is tagged valid afterwards; C0..C3 are outputs of the compare family only).'
 RULE += ' Round 7: 16-bit code-segment twins: the register-only rows decoded for that configuration must report the read and write sets of their 32-bit decoding.'
 RULE += ' Round 8: the segment pushes and repeated-prefix rows of C04; the 16-bit code-segment twins include memory-operand rows and compare the reported memory cells (addresses evaluated on a state whose upper register halves are set).'
+RULE += ' Round 9: far returns, the selector perturbed to the 64-bit user code selector (the step succeeds and cs, reported by the tracer, differs).'
 ASSUMPTIONS = ['the host CPU under ptrace single-step is the reference; faulting steps are excluded', 'only architecturally defined outputs witness a read dependency (undefined flags are ignored as outputs); '
                'every flag the CPU changes counts as written', 'x87 registers hold finite normal values with all exceptions masked (the default control word); TOP is 0 initially; a register tagged empty after the step is not an output']
 
@@ -222,6 +223,8 @@ def outputs(cpu, undef, with_fp, x87=None):
         if f not in undef:
             o['flag:' + f] = fl[f]
     o['eip'] = cpu['eip']
+    if 'cs' in cpu:
+        o['seg:cs'] = cpu['cs']
     o['mem'] = cpu['hot']
     if with_fp:
         for i in range(8):
@@ -284,6 +287,8 @@ def run_instances(sh, insts, nstates, seed):
                 h2[a - hb] ^= 0xff
                 if inst['extra'].get('popf'):
                     h2[a - hb] = hot[a - hb] ^ 0x01 if a == regs['esp'] else hot[a - hb]
+                if inst['extra'].get('farret') and a == regs['esp'] + inst['extra']['farret']:
+                    h2[a - hb] = 0x33        # another valid selector (the 64-bit user code segment): the step succeeds and cs differs
                 perts.append(('mem:%d' % a, dict(regs=regs, flags=flags, hot=bytes(h2), fp=fp, x87=x87)))
             if x87:
                 for i_ in range(8):
